@@ -1,1 +1,19 @@
-//! verif hook (child module): see /verif/hooks/verif.rs
+//! verif hook (child module of `buffered::for_each`)
+use super::*;
+
+impl<St, Fut, F> ForEachConcurrent<St, Fut, F>
+where
+    St: Stream,
+    F: FnMut(St::Item) -> Fut,
+    Fut: Future<Output = ()>,
+{
+    pub fn verif_from_parts(stream: Option<St>, f: F, futures: FuturesUnorderedBounded<Fut>) -> Self {
+        Self { stream, f, futures }
+    }
+    pub fn verif_stream_present(&self) -> bool {
+        self.stream.is_some()
+    }
+    pub fn verif_futures(&mut self) -> &mut FuturesUnorderedBounded<Fut> {
+        &mut self.futures
+    }
+}
